@@ -41,6 +41,8 @@ FIXES = {  # subject prefix -> properties whose check must fire when the fix is 
     "fix: Generator.choice": ["C28"],
     "fix: a broadcast join": ["C39"],
     "fix: structured and sub-array": ["C12"],
+    "fix: groupby-apply compares": ["C38"],
+    "fix: assigning to a column": ["C36"],
 }
 
 
